@@ -49,6 +49,31 @@ fn chk(c: &mut Ctx, text: &str, lo: usize, hi: usize) {
         Err(p) => c.fail("tokenize_non_whitespace", "safety", input, p, "no panic".into()),
     }
 }
+/// The two notions of "whitespace" the tracker uses must agree: `data_is_whitespace(bytes)` decides whether an inserted or
+/// deleted segment is substantive, the tokenizer decides what counts as a token.  For valid UTF-8 they have to say the same
+/// thing - the bytes are whitespace exactly when the tokenizer finds no token in them - or a whitespace-only reformat
+/// (C16: "changes no line's author") is treated as a substantive edit.  A relation between two real functions of /repo.
+fn chk_ws_consistent(c: &mut Ctx, text: &str) {
+    if HUNG.load(std::sync::atomic::Ordering::Relaxed) { return; }
+    // Only non-empty text: data_is_whitespace(b"") is `false` by an explicit convention of /repo, and that is harmless -
+    // the segments it is applied to are never empty (proved: append_range_diffs appends no empty segment) and C16 says
+    // nothing about empty data.  The first version of this oracle also compared the empty text and raised an alarm on
+    // the unchanged tree: a false alarm of the oracle, corrected here (DESIGN.md, C16).
+    if text.is_empty() { return; }
+    c.evaluated += 1;
+    let t2 = text.to_string();
+    match guarded(move || (data_is_whitespace(t2.as_bytes()), tokenize_non_whitespace(&t2, (0, t2.len()), 1).is_empty())) {
+        Ok((ws, no_tokens)) => if ws != no_tokens { c.fail("tokenize_non_whitespace", "whitespace_consistent_with_data_is_whitespace", format!("{}|0|{}", esc(text), text.len()), format!("data_is_whitespace = {}, tokenizer finds {} token", ws, if no_tokens { "no" } else { "a" }), "both agree on what is whitespace".into()); },
+        Err(p) => c.fail("tokenize_non_whitespace", "safety", format!("{}|0|{}", esc(text), text.len()), p, "no panic".into()),
+    }
+}
+fn gen_ws(g: &mut Rng) -> String {
+    let ws = [" ", "\t", "\n", "\r\n", "\u{b}", "\u{c}", "\u{a0}", "\u{2003}", "\u{3000}", "\u{2028}", "\u{85}"];
+    let n = 1 + g.below(4) as usize;
+    let mut s: String = (0..n).map(|_| ws[g.below(ws.len() as u64) as usize]).collect();
+    if g.below(4) == 0 { s.push_str(["x", "\u{e9}", ";", "0"][g.below(4) as usize]); }
+    s
+}
 fn gen_text(g: &mut Rng) -> String {
     let pieces = ["a", "_x1", "0x1F", "0b10", "3.14", "1e+5", "2E-", ".5", "..", "==", "->", "<<", ">>", ">", "\"s\\\"t\"", "'c'", "`t`", "\"open", " ", "\n", "\t", "(", ")", "{", "}", ";", "\u{e9}", "\u{65e5}\u{672c}", "\u{1f642}", "\u{a0}", "$", "#", "\"\u{e9}\u{1f642}\"", "x\u{e9}y", "0x\u{e9}", "9\u{65e5}", "e", "E", "+", "-", ".", "_", "0", "0o7", "=\u{e9}", "<\u{1f642}"];
     let n = g.below(7) as usize;
@@ -61,16 +86,21 @@ fn main() {
     if a[1] == "search" {
         let mut g = Rng(a[3].parse::<u64>().unwrap_or(0).wrapping_mul(0x9E3779B97F4A7C15) ^ 0x6a09e667f3bcc909);
         for fixed in ["", "a", "\u{e9}", "\"", "0", "0x", ".", ".5", "1e", "1e+", "$", "_", "\u{1f642}\u{1f642}", "a\u{e9}\"b\u{65e5}\"", ">>\u{e9}"] { chk(&mut c, fixed, 0, fixed.len()); }
+        for fixed in ["", " ", "\u{a0}", "\u{3000}", "\u{b}", " \u{a0}\t", "\u{a0}x"] { chk_ws_consistent(&mut c, fixed); }
+        for _ in 0..3000 { let w = gen_ws(&mut g); chk_ws_consistent(&mut c, &w); }
         for _ in 0..8000 {
             let t = gen_text(&mut g);
             chk(&mut c, &t, 0, t.len());
+            if g.below(4) == 0 { chk_ws_consistent(&mut c, &t); }
             let bs: Vec<usize> = (0..=t.len()).filter(|i| t.is_char_boundary(*i)).collect();
             let x = bs[g.below(bs.len() as u64) as usize]; let y = bs[g.below(bs.len() as u64) as usize];
             chk(&mut c, &t, x.min(y), x.max(y));
         }
     } else {
         let q: Vec<&str> = a[3].split('|').collect();
-        chk(&mut c, &unesc(q[0]), q[1].parse().unwrap(), q[2].parse().unwrap());
+        let t = unesc(q[0]);
+        chk(&mut c, &t, q[1].parse().unwrap(), q[2].parse().unwrap());
+        chk_ws_consistent(&mut c, &t);
     }
     println!("DONE evaluated={}", c.evaluated);
 }
